@@ -1,5 +1,5 @@
 (** Types of the objects gen/jsonx.go emits into Gen/JsonxConsts.v. *)
-From Coq Require Import List NArith String Bool.
+From Coq Require Import List NArith String Ascii Bool.
 Import ListNotations.
 
 (** A Go boolean expression over the lexer's current rune ([GRuneIs],
@@ -73,4 +73,111 @@ Fixpoint eval_see (sep eof : bool) (e : gexpr) : option bool :=
   | GSee w => if String.eqb w "sep" then Some sep
               else if String.eqb w "EOF" then Some eof else None
   | _ => None
+  end.
+
+(** Where the []byte an entry point returns comes from (gen/jsonx_own.go).
+    [RFresh]: a buffer made in that very call (new(bytes.Buffer), make,
+    a conversion that copies); [RNil]; [RCall f]: the result of function [f]
+    of the same table; everything else is memory that outlives the call or
+    that the translator cannot place: the buffer of something that is not
+    fresh ([RBufferOf]), a value taken out of an interface - a pool -
+    ([RPooled]), a package-level variable, a field, a parameter, the result
+    of a function outside the table. *)
+Inductive rorigin :=
+| RNil
+| RFresh
+| RCall (f : string)
+| RBufferOf (o : rorigin)
+| RPooled (src : string)
+| RGlobal (name : string)
+| RField (src : string)
+| RParam (name : string)
+| RForeign (src : string)
+| RUnknown (src : string).
+
+Definition origin_fresh (table : list string) (pkg : string) (o : rorigin) : bool :=
+  match o with
+  | RNil | RFresh => true
+  | RCall f => existsb (String.eqb (pkg ++ "." ++ f)) table
+  | _ => false
+  end.
+
+(** The package part of "pkg.Func". *)
+Fixpoint pkg_of (s : string) : string :=
+  match s with
+  | EmptyString => EmptyString
+  | String c r => if Ascii.eqb c "."%char then EmptyString else String c (pkg_of r)
+  end.
+
+(** Every function of the table returns nil, a buffer of its own, or what
+    another function of the table returns (which, the table being closed
+    under this, is again one of the three); no package-level variable is or
+    holds a buffer. *)
+Definition results_fresh (t : list (string * list rorigin)) (vars : list (string * string)) : bool :=
+  forallb (fun fo => forallb (origin_fresh (map fst t) (pkg_of (fst fo))) (snd fo)) t
+  && match vars with [] => true | _ => false end.
+
+Local Open Scope string_scope.
+
+(** A write to the error state of lexing (gen/jsonx.go: every assignment to a
+    selector .inJail or .errs in lexing/ and jsonx/, every address taken of
+    one). *)
+Inductive ewrite :=
+| WSetJail (fn : string) (v : bool)
+| WAppendErr (fn : string)
+| WNewList (fn : string)
+| WOther (fn : string) (src : string).
+
+Definition str_in (s : string) (l : list string) : bool := existsb (String.eqb s) l.
+
+(** The flag is raised only by Add (and the unused Jail), lowered only by
+    BailOut; the list grows only in Add; the lexer's and the parser's lists
+    are made once, at construction; nothing else touches them. *)
+Definition write_ok (w : ewrite) : bool :=
+  match w with
+  | WSetJail f true => str_in f ["ErrorList.Add"; "ErrorList.Jail"]
+  | WSetJail f false => str_in f ["ErrorList.BailOut"]
+  | WAppendErr f => str_in f ["ErrorList.Add"]
+  | WNewList f => str_in f ["NewLexer"; "NewParser"]
+  | WOther _ _ => false
+  end.
+
+Definition has_write (w : ewrite) (l : list ewrite) : bool :=
+  existsb (fun x => match x, w with
+                    | WSetJail f a, WSetJail g b => String.eqb f g && Bool.eqb a b
+                    | WAppendErr f, WAppendErr g => String.eqb f g
+                    | WNewList f, WNewList g => String.eqb f g
+                    | _, _ => false
+                    end) l.
+
+Definition writes_ok (l : list ewrite) : bool :=
+  forallb write_ok l
+  && has_write (WSetJail "ErrorList.Add" true) l && has_write (WSetJail "ErrorList.BailOut" false) l
+  && has_write (WAppendErr "ErrorList.Add") l
+  && has_write (WNewList "NewLexer") l && has_write (WNewList "NewParser") l.
+
+(** A one-statement helper: returns a field of the receiver, sets one to a
+    constant, calls a method of the receiver or of one of its fields with the
+    listed arguments ("$x" = its own parameter x). *)
+Inductive edeleg :=
+| DReturnField (field : string)
+| DSetField (field : string) (v : bool)
+| DCallSelf (meth : string) (args : list string)
+| DCallField (field meth : string) (args : list string)
+| DOther (src : string).
+
+Fixpoint strs_eqb (a b : list string) : bool :=
+  match a, b with
+  | [], [] => true
+  | x :: a', y :: b' => String.eqb x y && strs_eqb a' b'
+  | _, _ => false
+  end.
+
+Definition edeleg_eqb (a b : edeleg) : bool :=
+  match a, b with
+  | DReturnField f, DReturnField g => String.eqb f g
+  | DSetField f x, DSetField g y => String.eqb f g && Bool.eqb x y
+  | DCallSelf m a1, DCallSelf n a2 => String.eqb m n && strs_eqb a1 a2
+  | DCallField f m a1, DCallField g n a2 => String.eqb f g && String.eqb m n && strs_eqb a1 a2
+  | _, _ => false
   end.
